@@ -121,8 +121,8 @@ def _setter(field, width, none_ok):
             def exceptional(self, value, exc, old):
                 return is_instance_of(exc, AVPAttributeValueError) and not accepted(value, 4, True)
 
-        def control_accepts_everything(value):
-            return True if accepted(value, width, none_ok) else False
+        def control_int_stored_as_zero(self, value):
+            return implies(isinstance(value, int), slot(self, "_" + field) == zeros(width))
     return _S
 
 
